@@ -2,10 +2,12 @@ pub mod c01;
 pub mod c02;
 pub mod c03;
 pub mod c04;
+pub mod c08;
 pub mod c09;
 pub mod c11;
 pub mod c12;
 pub mod c13;
+pub mod c15;
 pub mod c16;
 pub mod common;
 pub mod par;
@@ -27,10 +29,12 @@ pub fn all() -> Vec<Prop> {
         Prop { id: "C04", level: "exploration", run: c04::run, replay: c04::replay },
         Prop { id: "C05", level: "exploration", run: par::run_c05, replay: par::replay },
         Prop { id: "C06", level: "fault_enumeration", run: par::run_c06, replay: par::replay },
+        Prop { id: "C08", level: "exploration", run: c08::run, replay: c08::replay },
         Prop { id: "C09", level: "exploration", run: c09::run, replay: c09::replay },
         Prop { id: "C11", level: "exploration", run: c11::run, replay: c11::replay },
         Prop { id: "C12", level: "fault_enumeration", run: c12::run, replay: c12::replay },
         Prop { id: "C13", level: "exploration", run: c13::run, replay: c13::replay },
+        Prop { id: "C15", level: "exploration", run: c15::run, replay: c15::replay },
         Prop { id: "C16", level: "fault_enumeration", run: c16::run, replay: c16::replay },
     ]
 }
